@@ -18,6 +18,7 @@ import Fir.Proofs.IdealFilterLemmas
 import Fir.Proofs.TwoPass16Lemmas
 import Fir.Proofs.FloatLemmas
 import Fir.Proofs.SignLemmas
+import Fir.Proofs.IeeeLemmas
 
 namespace Fir.C18
 open Fir
@@ -298,5 +299,20 @@ theorem nonneg_weights (fl : ℚ → ℚ) (hfl : Monotone fl) (h0 : fl 0 = 0) (w
 /-! ### non-vacuity -/
 example : passInt .u8 [8192, 8192] [10, 20] 14 ≤ passInt .u8 [8192, 8192] [10, 21] 14 := by decide
 example : RowLe [1, 2] [1, 3] := by decide
+
+/-! ### the premises about rounding discharged for IEEE-754 round-to-nearest-even (`Fir.Ieee.flP`) -/
+
+section IeeeInstances
+open Fir.Ieee Fir.Flt
+/-- order preservation of the f64 accumulation for IEEE binary64, every summation order -/
+theorem float_tree_monotone_ieee (k : ℕ → ℚ) (hk : ∀ i, 0 ≤ k i) (x y : ℕ → ℚ) (hxy : ∀ i, x i ≤ y i) (t : Shape) :
+    t.eval (flP 53) x k ≤ t.eval (flP 53) y k :=
+  float_tree_monotone (flP 53) (flP_monotone 53 (by norm_num)) k hk x y hxy t
+
+/-- ... including the final narrowing to binary32 of the F32 formats -/
+theorem float_result_monotone_ieee (k : ℕ → ℚ) (hk : ∀ i, 0 ≤ k i) (x y : ℕ → ℚ) (hxy : ∀ i, x i ≤ y i) (t : Shape) :
+    flP 24 (t.eval (flP 53) x k) ≤ flP 24 (t.eval (flP 53) y k) :=
+  flP_monotone 24 (by norm_num) (float_tree_monotone_ieee k hk x y hxy t)
+end IeeeInstances
 
 end Fir.C18
